@@ -403,10 +403,11 @@ func MergeConfig(a, b *Config) *Config {
 	if b.DisableCoordinates {
 		result.DisableCoordinates = true
 	}
-	if b.Tags != nil {
-		if result.Tags == nil {
-			result.Tags = make(map[string]string)
-		}
+	if a.Tags != nil || b.Tags != nil {
+		// Combine into a fresh map: the result must not share a's map, or
+		// merging would write b's tags into the first input.
+		result.Tags = make(map[string]string, len(a.Tags)+len(b.Tags))
+		maps.Copy(result.Tags, a.Tags)
 		maps.Copy(result.Tags, b.Tags)
 	}
 	if b.BindAddr != "" {
@@ -514,6 +515,12 @@ func MergeConfig(a, b *Config) *Config {
 	}
 	if b.BroadcastTimeout != 0 {
 		result.BroadcastTimeout = b.BroadcastTimeout
+	}
+	if b.ValidateNodeNames {
+		result.ValidateNodeNames = true
+	}
+	if b.MsgpackUseNewTimeFormat {
+		result.MsgpackUseNewTimeFormat = true
 	}
 	result.EnableCompression = b.EnableCompression
 
